@@ -193,6 +193,92 @@ pub fn run_case(ctx: &Ctx, rep: &mut Report, judge: Judge, case: &Case) {
     let _ = ctx;
 }
 
+/// C02, raw frame streams: a history of `FlacStreamWriter::write` calls, some of them refused
+/// (illegal parameters), must leave a byte stream that is exactly the conforming frames of the
+/// accepted calls, numbered consecutively from 0; a refused call contributes nothing.
+pub fn run_stream_history(rep: &mut Report, rng: &mut Rng) {
+    use flac_codec::encode::{FlacStreamWriter, Options};
+    use flacref::dec::decode_raw;
+    let nops = rng.usize(2, 9);
+    let opts = if rng.chance(1, 2) { Options::default() } else { Options::fast() };
+    let mut ops: Vec<(u32, u8, u32, Vec<i32>, &'static str)> = vec![];
+    for _ in 0..nops {
+        let channels = if rng.chance(1, 2) { rng.usize(1, 2) } else { rng.usize(1, 8) } as u8;
+        let bps = *rng.pick(&[8u32, 12, 16, 20, 24, 32]);
+        let rate = *rng.pick(&[8000u32, 44100, 48000, 96000, 11025, 12345, 64000, 655340, 1000]);
+        let len = if rng.chance(1, 4) { rng.usize(1, 15) } else { rng.usize(16, 400) };
+        let mut r2 = Rng::new(rng.next());
+        let sig = *rng.pick(&flacref::pcm::ALL_SIGNALS);
+        let samples = flacref::pcm::generate(sig, channels as usize, bps, len, &mut r2);
+        let op = match rng.below(10) {
+            0 => (rate, channels, 18, samples, "bps-not-in-subset"),
+            1 => (rate, channels, 0, samples, "bps-0"),
+            2 => (rate, 0, bps, samples, "channels-0"),
+            3 => (rate, 9, bps, samples, "channels-9"),
+            4 => (rate, channels, bps, vec![], "empty"),
+            5 if channels > 1 => {
+                let mut v = samples;
+                v.pop();
+                (rate, channels, bps, v, "not-divisible-by-channels")
+            }
+            6 => (700001, channels, bps, samples, "rate-not-in-subset"),
+            _ => (rate, channels, bps, samples, "valid"),
+        };
+        ops.push(op);
+    }
+    rep.eval();
+    rep.case_begin(&format!("stream-writer history {:?}", ops.iter().map(|o| (o.0, o.1, o.2, o.3.len(), o.4)).collect::<Vec<_>>()));
+    let replay = || J::obj().set("scenario", "stream-writer-history").set("ops", J::Arr(ops.iter().map(|o| J::obj().set("rate", o.0).set("channels", o.1).set("bps", o.2).set("samples", pcm_json(&o.3)).set("kind", o.4)).collect()));
+    let mut sink: Vec<u8> = vec![];
+    let mut accepted: Vec<(u32, u8, u32, Vec<i32>)> = vec![];
+    let r = mon::guard(|| {
+        let mut w = FlacStreamWriter::new(&mut sink, opts);
+        let mut res = vec![];
+        for (rate, ch, bps, samples, _) in &ops {
+            res.push(w.write(*rate, *ch, *bps, samples).map_err(|e| crate::api::show(&e)));
+        }
+        res
+    });
+    let res = match r {
+        Err(p) => {
+            rep.violation("panic", format!("stream-writer:{}", p.signature()), format!("FlacStreamWriter::write: {} at {}", p.msg, p.location), replay());
+            return;
+        }
+        Ok(r) => r,
+    };
+    for (op, r) in ops.iter().zip(&res) {
+        rep.count("stream_write", format!("{}:{}", op.4, if r.is_ok() { "ok" } else { "refused" }));
+        if r.is_ok() {
+            accepted.push((op.0, op.1, op.2, op.3.clone()));
+        }
+    }
+    let frames = match decode_raw(&sink, &Rules::STRICT) {
+        Ok(f) => f,
+        Err(e) => {
+            rep.violation("nonconforming", format!("stream-writer:refdec:{}", e.rule), format!("the bytes left by a write history are not a sequence of conforming frames: {e}"), replay());
+            return;
+        }
+    };
+    if frames.len() != accepted.len() {
+        rep.violation("nonconforming", "stream-writer:frame-count", format!("{} frames in the output, {} calls succeeded", frames.len(), accepted.len()), replay());
+        return;
+    }
+    for (i, ((fi, pcm), (rate, ch, bps, samples))) in frames.iter().zip(&accepted).enumerate() {
+        if fi.variable || fi.number != i as u64 {
+            rep.violation("nonconforming", "stream-writer:frame-numbering", format!("frame {i} of the output carries number {} (variable={}): frames are not numbered consecutively from 0", fi.number, fi.variable), replay());
+            return;
+        }
+        if fi.rate != *rate || fi.channels != *ch || fi.bps as u32 != *bps || flacref::dec::interleave(pcm) != *samples {
+            rep.violation("nonconforming", "stream-writer:frame-content", format!("frame {i} does not carry what call {i} was given (header: rate {} ch {} bps {})", fi.rate, fi.channels, fi.bps), replay());
+            return;
+        }
+    }
+    rep.count_n("frames_validated", "n", frames.len() as u64);
+    if res.iter().any(|r| r.is_err()) && !accepted.is_empty() {
+        rep.nontrivial(crate::report::fnv(&sink));
+    }
+}
+
 pub fn run(ctx: &Ctx, rep: &mut Report, judge: Judge) {
     if let Some(path) = &ctx.replay {
         replay(ctx, rep, judge, path);
@@ -248,7 +334,15 @@ pub fn run(ctx: &Ctx, rep: &mut Report, judge: Judge) {
     rep.notes.push(format!("systematic: lengths 1..={max_len} x {{1,2}}ch x {{8,16,24,32}}bps x presets x signals"));
     // (b) random exploration
     let mut rng = ctx.rng(0xC01);
+    if judge == Judge::Reference {
+        for _ in 0..40 {
+            run_stream_history(rep, &mut rng);
+        }
+    }
     while ctx.time_left() {
+        if judge == Judge::Reference && rng.chance(1, 8) {
+            run_stream_history(rep, &mut rng);
+        }
         let cfg = EncCfg::random(&mut rng);
         let bs = cfg.block_size as usize;
         let order = cfg.max_lpc.unwrap_or(4) as usize;
@@ -310,6 +404,7 @@ fn parse_cfg(j: &J) -> Option<EncCfg> {
         padding,
         seek,
         declare_total: j.get("declare_total")?.as_bool()?,
+        extras: j.get("extras").and_then(|v| v.as_u64()).unwrap_or(0) as u8,
     })
 }
 
